@@ -1,7 +1,8 @@
 """C05: closure runs once; join awaits exit and returns the value / None on panic; spawn fails cleanly.
 Oracles: in-probe monitors of thread_probe (run counters, tagged results, plain-memory visibility buffer)
 in three link modes, sysmon process/thread log (one exit per clone, join-vs-exit orders actually seen),
-sysmon fault injection into spawn's two system calls with a logical hang certificate."""
+sysmon fault injection into every system call spawn performs (read from an un-injected traced run) with a
+logical hang certificate; futex-hook scenarios for early wake-ups and for the thread exiting inside the wait's window."""
 import os
 
 import syslog
@@ -21,9 +22,12 @@ def run(ck, replay=None):
     quick = ck.tier == "quick"
     syslog.sysmon_bin()
     exes = [(m, r, tp.build(m, r)) for m, r in tp.flavours(quick)]
-    n_cells = 40 if quick else 400
-    n_mixed = 400 if quick else 6000
+    n_cells = 150 if quick else 400
+    n_mixed = 1500 if quick else 6000
     jobs, meta = [], []
+    # which system calls does spawn perform? (read from an un-injected traced run, per flavour; every one of
+    # them is then refused in turn - the list is not fixed to today's mmap + clone)
+    spawn_calls = tp.discover_spawn_calls(exes, ck.seed, "c05")
     # thorough repeats the whole matrix at several seeds: the interleavings seen differ from run to run
     reps = 1 if quick else 6
     for i, (m, r, exe) in [(i + 5000 * rep, f) for rep in range(reps) for i, f in enumerate(exes)]:
@@ -33,17 +37,25 @@ def run(ck, replay=None):
         meta.append(("native", m, r, "mixed", None))
         # the kernel may end any futex wait early (EINTR, or a wake-up meant for an earlier user of the word):
         # injected at the futex hook while joins really park
-        for scen in ("spurious_eintr", "spurious_wake"):
-            jobs.append(tp.native_job(exe, scen, ck.seed + 150 + i, 40 if quick else 400, timeout=150 if quick else 1800))
+        for scen in ("spurious_eintr", "spurious_wake", "exit_window"):
+            jobs.append(tp.native_job(exe, scen, ck.seed + 150 + i, 150 if quick else 400, timeout=150 if quick else 1800))
             meta.append(("native", m, r, scen, None))
         # traced run: thread/exit accounting and observed orders
         log = tp.tmp_log("c05-cells")
-        jobs.append(tp.sysmon_job(exe, "cells", ck.seed + 200 + i, 10 if quick else 40, log, timeout_s=90 if quick else 600))
+        jobs.append(tp.sysmon_job(exe, "cells", ck.seed + 200 + i, 25 if quick else 40, log, timeout_s=90 if quick else 600, entries=True))
         meta.append(("sysmon", m, r, "cells", log))
-        for scen in ("fault_clone", "fault_mmap"):
-            log = tp.tmp_log("c05-" + scen)
-            jobs.append(tp.sysmon_job(exe, scen, ck.seed + 300 + i, 6, log, timeout_s=8))
-            meta.append(("sysmon", m, r, scen, log))
+        if i >= 5000:
+            continue    # the refusal positions are enumerated once per flavour, not per repetition
+        calls = spawn_calls.get((m, r))
+        if not calls:
+            ck.note_inconclusive("%s/%s: spawn's system calls could not be read from the un-injected run" % (m, "release" if r else "debug"))
+            continue
+        ck.extra.setdefault("spawn_system_calls", {})["%s/%s" % (m, "release" if r else "debug")] = \
+            ["%s#%d" % (syslog.NAME.get(nr, nr), occ) for nr, occ in calls]
+        for nr, occ in calls:
+            log = tp.tmp_log("c05-fault")
+            jobs.append(tp.sysmon_job(exe, "fault_nr", ck.seed + 300 + i, nr, log, timeout_s=8, extra=(occ,)))
+            meta.append(("sysmon", m, r, "fault:%d:%d" % (nr, occ), log))
     if not quick:
         for k in range(8):
             m, r, exe = exes[k % len(exes)]
@@ -51,6 +63,9 @@ def run(ck, replay=None):
             meta.append(("native", m, r, "mixed", None))
     res = vlib.run_parallel(jobs)
     orders = dict(exit_before_join=0, join_parked_then_woken=0, handle_side_release=0, thread_side_release=0)
+    # a crash in a run with injected early wake-ups is blamed on them only if the same flavour survives without
+    crashed_plain = {(m, r) for (how, m, r, scen, log), rr in zip(meta, res)
+                     if how == "native" and not scen.startswith("spurious") and rr["rc"] is not None and rr["rc"] < 0}
     for (how, m, r, scen, log), rr in zip(meta, res):
         label = "%s %s/%s %s" % (how, m, "release" if r else "debug", scen)
         text = tp.filter_lines(rr["out"], "C05")
@@ -59,7 +74,11 @@ def run(ck, replay=None):
             if scen.startswith("spurious"):
                 # a join that ends because the wait returned early is named after its cause
                 cause = "EINTR" if scen == "spurious_eintr" else "spurious-futex-wake"
-                early = "@@VIOL C05/" in text or (rr["rc"] is not None and rr["rc"] < 0)
+                crashed = rr["rc"] is not None and rr["rc"] < 0
+                early = "@@VIOL C05/" in text or (crashed and (m, r) not in crashed_plain)
+                if crashed and not early:
+                    ck.violation("C05/probe-crash/%s" % scen, dict(label=label, signal=-rr["rc"], stderr=rr["err"][-800:]))
+                    continue
                 text = "\n".join(l for l in text.splitlines() if not l.startswith("@@VIOL"))
                 rr2 = dict(rr, out=text, rc=0 if early else rr["rc"])
                 if early:
@@ -77,13 +96,15 @@ def run(ck, replay=None):
             pass
         if scen.startswith("fault"):
             ck.consume(text, context=label)
-            nr = 56 if scen == "fault_clone" else 9
+            nr, occ = [int(x) for x in scen.split(":")[1:]]
+            cname = str(syslog.NAME.get(nr, nr)) + ("" if occ == 0 else "#%d" % occ)
+            scen = "fault_" + cname
             reports = [e for e in evs if e.k == "M" and e.kind == syslog.MARK["REPORT"] and e.a[0] == 77]
             injected = [e for e in evs if e.k == "S" and e.inj and e.nr == nr]
             for e in injected:
                 ck.count("faults_injected")
-                if nr == 9 and e.args[1] != tp.STACK_SZ:
-                    ck.note_inconclusive("%s: injected mmap was not the stack mapping (len %d)" % (label, e.args[1]))
+            if len(injected) < len(reports):
+                ck.note_inconclusive("%s: %d refusals asked for, %d delivered" % (label, len(reports), len(injected)))
             for e in reports:
                 pos, err_at = e.a[1], e.a[2]
                 ck.add_eval(1)
@@ -93,25 +114,25 @@ def run(ck, replay=None):
                     ck.count("spawn_ok_despite_failed_syscall")
             cert = tp.hang_certificate(evs)
             if cert:
-                ck.violation("C05/spawn/ok-despite-failed-%s/join-never-returns" % ("clone" if nr == 56 else "mmap"),
+                ck.violation("C05/spawn/ok-despite-failed-%s/join-never-returns" % cname,
                              dict(label=label, certificate=cert))
             elif rr["rc"] == 124 or rr["timed_out"]:
                 ck.note_inconclusive("%s: watchdog fired without a hang certificate" % label)
             elif rr["rc"] is not None and rr["rc"] >= 128 and rr["rc"] not in (124, 125):
                 # the probe died from a signal while spawn was handling the refused system call
-                ck.violation("C05/spawn/crash-on-failed-%s" % ("clone" if nr == 56 else "mmap"),
+                ck.violation("C05/spawn/crash-on-failed-%s" % cname,
                              dict(label=label, exit_status=rr["rc"], signal=rr["rc"] - 128,
                                   faults_injected=len(injected), probe_output_tail=rr["out"][-400:]))
             elif rr["rc"] == 1 and "Main thread panicked" in rr["err"] and "/verif/probes/" not in rr["err"].split("Main thread panicked", 1)[1][:200]:
                 # tiny-std's own panic handler: a panic inside repository code while spawn handles the refusal
-                ck.violation("C05/spawn/panic-on-failed-%s" % ("clone" if nr == 56 else "mmap"),
+                ck.violation("C05/spawn/panic-on-failed-%s" % cname,
                              dict(label=label, panic=rr["err"].split("Main thread panicked", 1)[1][:300]))
             elif rr["rc"] != 0:
                 ck.note_inconclusive("%s: exit status %s" % (label, rr["rc"]))
             else:
                 for e in reports:
                     if e.a[2] != e.a[1]:
-                        ck.violation("C05/spawn/ok-despite-failed-%s" % ("clone" if nr == 56 else "mmap"),
+                        ck.violation("C05/spawn/ok-despite-failed-%s" % cname,
                                      dict(label=label, position=e.a[1], spawn_err_at=e.a[2]))
             continue
         # traced cells run
@@ -132,6 +153,7 @@ def run(ck, replay=None):
     ck.assume("join's visibility relies on the kernel's clear-child-tid store being observed with a Relaxed load; on x86-64 this cannot be seen failing; aarch64 paths (__clone, _start) are not executed")
     ck.assume("a hang is only reported with a logical certificate (single remaining thread parked in futex wait on the join word); watchdog alone is inconclusive")
     return ("thread_probe (no-libc, three link modes) runs the 6 disposition x 2 outcome cells over the result-layout family, "
-            "random mixtures with up to 512 live threads, and spawn with sysmon failing the stack mmap / clone at first, middle, last "
-            "position; per thread: run counter == 1, tagged result, plain buffer written before return must be visible after join; "
+            "random mixtures with up to 512 live threads, spawn with sysmon refusing each system call spawn performs (list read from an "
+            "un-injected traced run) at first, middle, last position, joins/drops whose futex wait is ended early or entered after the "
+            "thread has exited; per thread: run counter == 1, tagged result, plain buffer written before return must be visible after join; "
             "distinct = (cell, outcome, layout), flavours, fault positions and observed join-vs-exit orders")
